@@ -35,6 +35,30 @@ MISSED = {
     "C19-C": "a lying value was only tried alone, never inside a distribution after honest elements",
     "C19-D": "durations stayed below 2^32 s",
     "C20-C": "all metrics were registered before the first readout",
+    # round 3
+    "C02-F": "custom unit names had quotes and backslashes but no control characters",
+    "C03-E": "floating observations came from a small set of magnitudes",
+    "C05-E": "racers on a global sink appended through a sink handle obtained earlier, never through the global itself",
+    "C05-F": "appenders always stopped before the shutdown was checked: no sustained load",
+    "C06-F": "no read-only use (Debug formatting) of owner or guards concurrent with the drops",
+    "C07-E": "variant identifiers were plain CamelCase words (no acronym runs, no underscores)",
+    "C07-F": "no prefix text was used both as prefix and as exact_prefix within one generated crate",
+    "C08-F": "no error-report entry between the entries of a long-lived formatter",
+    "C09-E": "no flush requests in the overflow histories",
+    "C09-F": "the stream never reported errors in the overflow histories (and only one error kind elsewhere)",
+    "C10-F": "every input contributed exactly one observation to a distribution",
+    "C11-F": "occurrence counts were always at least 1",
+    "C12-F": "draw == rate was forced for the fixed-fraction sampler only",
+    "C13-F": "slots were never used inside a tokio task (let alone one without budget)",
+    "C14-E": "a sampled formatter was always called the same way within a sequence",
+    "C14-F": "big entries were big by their strings, never by the number of observations",
+    "C15-E": "every stream/format adapter was used for a single entry",
+    "C16-E": "one kind of hard error only; a retried write was rescued by the script's next step",
+    "C16-F": "the output_to_makewriter stream was not exercised",
+    "C17-E": "no contention on the runtime-sink map while a guard was dropped",
+    "C17-F": "no rejected attach attempts concurrent with appends",
+    "C18-E": "the stopwatch was never closed while guards were being stopped on another thread",
+    "C18-F": "values were always closed under the time source they were created under",
 }
 
 
